@@ -10,6 +10,7 @@ rehash, tables smaller/equal/larger than a group) and both scanners (`CfgOk`), e
 what the reference returns and the table holds a permutation of the reference's pairs, each key once.
 -/
 import Hb.Proofs.Refine
+import Hb.Proofs.RefineX
 namespace Hb.C01
 open Hb
 
@@ -27,6 +28,41 @@ theorem history_refines (hc : CfgOk cfg) {env : Env} {H : Nat → Nat} {P : AL.P
     ∃ os wf lf, Map.run cfg env ops w0 = some (os, wf) ∧ AL.Trace P ops [] os lf ∧
       List.Perm wf.t.elems lf ∧ lf.keysNodup ∧ RI cfg H wf.t :=
   C01_run_refines hc hlp ops hb w0 h0
+
+/-- THE WHOLE MODELLED API IN ONE HISTORY (`MapOpX`, Hb/Model/MapOpsX.lean): the basic calls above
+    interleaved in any order with `entry` / `entry_ref` / `rustc_entry` / `raw_entry_mut` followed by any
+    method chain, `raw_entry` look-ups, `try_insert`, `extend`, `get_many_mut` and `Index`. `AL.StepX`
+    (Hb/Proofs/SpecX.lean) is the reference association list for these calls: the observation is the
+    reference's return value or its documented panic (`"dup"` for `get_many_mut` naming one present key
+    twice, `"nokey"` for `map[k]` of an absent key, `"capacity"` = the capacity-overflow panic, which
+    leaves the map unchanged), and the final contents are a permutation of the reference's pairs, each
+    key once. `contract H` only constrains raw-entry builders that take a caller-supplied hash (it must
+    be the key's hash — the documented contract; `rawLook_wrong_hash_misses` in C14 shows it is needed);
+    `basicOk` excludes only `extract_if`/`drain`/`iter` (covered by C10/C09). -/
+theorem history_refines_all_calls (hc : CfgOk cfg) {env : Env} {H : Nat → Nat} {P : AL.Pred}
+    (hlp : LawfulP env H P) (ops : List MapOpX) (hct : ∀ op ∈ ops, op.contract H)
+    (hb : ∀ op ∈ ops, op.basicOk = true) (w0 : World) (h0 : w0.t = Raw.new cfg.W) :
+    ∃ os wf lf, Map.runX cfg env ops w0 = some (os, wf) ∧ AL.TraceX P H ops [] os lf ∧
+      List.Perm wf.t.elems lf ∧ lf.keysNodup ∧ RI cfg H wf.t :=
+  historyX_refines hc hlp ops hct hb w0 h0
+
+/-- One call of the extended API from any state satisfying the representation invariant. -/
+theorem call_refines_all_calls (hc : CfgOk cfg) {env : Env} {H : Nat → Nat} {P : AL.Pred}
+    (hlp : LawfulP env H P) (op : MapOpX) (hct : op.contract H) (hb : op.basicOk = true)
+    (w : World) (h : RI cfg H w.t) :
+    (∃ r w' l', Map.stepX cfg env op w = .ok (r, w') ∧ AL.StepX P H op w.t.elems (.ret r) l' ∧
+      List.Perm w'.t.elems l' ∧ RI cfg H w'.t) ∨
+    (∃ c w' l', Map.stepX cfg env op w = .panic c w' ∧ AL.StepX P H op w.t.elems (.panic c) l' ∧
+      List.Perm w'.t.elems l' ∧ RI cfg H w'.t) :=
+  stepX_refines hc hlp op hct hb w h
+
+/-- The reference is pinned down (not vacuous): on a given abstract map an extended call has at most
+    one returning outcome (up to the unspecified `try_reserve` result), and `entry(k).or_insert(v)`,
+    `try_insert`, `extend`, `get_many_mut` mean what the documentation says. -/
+theorem reference_is_functional {P : AL.Pred} {H : Nat → Nat} {op : MapOpX} {l l1 l2 : AL} {r1 r2 : RetX}
+    (h1 : AL.StepX P H op l (.ret r1) l1) (h2 : AL.StepX P H op l (.ret r2) l2) :
+    l1 = l2 ∧ ((∀ n, op ≠ .base (.tryReserve n)) → r1 = r2) :=
+  AL.StepX.ret_functional h1 h2
 
 /-- One call from any state satisfying the representation invariant. -/
 theorem call_refines (hc : CfgOk cfg) {env : Env} {H : Nat → Nat} {P : AL.Pred}
@@ -86,6 +122,9 @@ theorem tombstone_rule (hc : CfgOk cfg) {t : Raw} (h : Inv cfg t) {idx : Nat} (h
 example : LawfulP rfEnv rfH rfP := rfEnv_lawfulP
 
 #print axioms history_refines
+#print axioms history_refines_all_calls
+#print axioms call_refines_all_calls
+#print axioms reference_is_functional
 #print axioms call_refines
 #print axioms insert_keeps_stored_key
 #print axioms lookup_spec
